@@ -141,6 +141,20 @@ class Sched:
         n = (self.quick if ctx.tier == "quick" else self.thorough) * ctx.scale
         out = {"name": self.name, "kind": self.kind, "scenario": self.scenario, "evaluations": 0, "distinct_nontrivial": 0, "traces_validated": 0,
                "samples": [], "stats": {}, "k_bad": [], "f_bad": [], "instrumented_files": instrumented}
+        # corpus of recorded schedules first
+        cdir = os.path.join(VERIF, "corpus", "sched", self.scenario)
+        if os.path.isdir(cdir):
+            for fn in sorted(os.listdir(cdir)):
+                if not fn.endswith(".json"): continue
+                for item in json.load(open(os.path.join(cdir, fn))):
+                    recs = self._run(binp, ["-replay", item["config"] + ";" + ",".join(str(c) for c in item["schedule"])])
+                    out["evaluations"] += 1
+                    out["corpus_cases"] = out.get("corpus_cases", 0) + 1
+                    if recs and recs[0].get("problems"):
+                        out["f_bad"].append({"component": self.name, "kind": "spec-violation", "scenario": self.scenario, "config": item["config"], "source": "corpus:" + fn,
+                                             "schedule": recs[0]["choices"], "problems": recs[0]["problems"], "trace": (recs[0].get("trace") or [])[:400], "seed": ctx.seed, "signature": None})
+                    else:
+                        out["traces_validated"] += 1
         batches = [["-seed", str(ctx.seed), "-runs", str(n)]]
         if self.exh and (ctx.tier == "thorough" or self.exh <= 3000):
             batches.append(["-exhaustive", "-seed", str(ctx.seed), "-limit", str(self.exh if ctx.tier == "quick" else self.exh * 20)])
